@@ -149,6 +149,148 @@ def s_client_tls_init(vc):
         vc.ensure("no_outer_tls.sni_untouched", vc.eq(client.sni, outer_sni))
 
 
+@scenario("tls_start_server.upstream_offers_respect_http2_switch", functions=["mitmproxy.addons.tlsconfig:TlsConfig.tls_start_server"])
+def s_upstream_offers(vc):
+    """Clause 3 across the two functions that cooperate on it: alpn_select_callback mirrors a known upstream protocol without
+    looking at the http2 option (contract above: r != h2 unless the upstream negotiated h2), so 'HTTP/2 is never selected when
+    http2 is disabled' also needs: the offer list TlsConfig.tls_start_server derives for the upstream handshake never contains
+    h2 when http2 is disabled, contains only protocols the client offered, and is exactly what is handed to OpenSSL.
+    Offer lists of length 0..3 with arbitrary (symbolic) protocols; the upstream's own offer list not preset by an addon."""
+    from props.C15 import set_ctx_options, _entries, A, NT
+    from props.tlsstub import mk_fake_ssl_module, patch_global
+    http2 = vc.sym_bool("http2")
+    n = vc.case("client_offers", [0, 1, 2, 3])
+    offers = [vc.sym_bytes("offer%d" % i) for i in range(n)]
+    for o in offers:
+        vc.assume(len_(o) > 0)
+    set_ctx_options(vc, mk_options(vc, ssl_insecure=True, http2=http2, ciphers_server=None, tls_version_server_min="TLS1_2", tls_version_server_max="UNBOUNDED",
+                                   client_certs=None, tls_ecdh_curve_server=None, ssl_verify_upstream_trusted_confdir=None, ssl_verify_upstream_trusted_ca=None))
+    fake, trace = mk_fake_ssl_module(vc, 1)
+    patch_global(vc, A, "SSL", fake)
+    vc.summary(NT + ":create_proxy_server_context", lambda v, **kw: v.ghost("ssl-context", 1))
+    client = mk_client(vc, sni="client.example", alpn_offers=vc.list(offers))
+    server = mk_server(vc, address=("example.com", 443), sni="example.com", alpn_offers=vc.list([]), cipher_list=vc.list([]))
+    ctx = mk_context(vc, client, server)
+    data = vc.new("mitmproxy.tls:TlsData", conn=server, context=ctx, ssl_conn=None, is_dtls=False)
+    addon = vc.new(A + ":TlsConfig")
+    out = vc.call(A + ":TlsConfig.tls_start_server", addon, data)
+    vc.ensure("no_exception", out.ok)
+    if not out.ok:
+        return
+    got = list(server.alpn_offers.items) if vc.mode == "sym" else list(server.alpn_offers)
+    for i, g in enumerate(got):
+        vc.ensure("no_h2_offered_upstream_when_disabled", Implies(Not(http2), g != b"h2"))
+        vc.ensure("only_protocols_the_client_offered", Or(*[g == o for o in offers]) if offers else False)
+    # nothing but h2 is dropped, and order is kept: the offers are the client's, minus h2 when http2 is disabled
+    keep = [o for o in offers if vc.branch(Or(http2, o != b"h2"))]
+    vc.ensure("offers_are_the_clients_minus_h2", len(got) == len(keep) and And(*[g == k for g, k in zip(got, keep)]))
+    sent = _entries(vc, trace, "set_alpn_protos")
+    if got:
+        handed = sent[0][1] if sent else None
+        hl = (list(handed.items) if vc.mode == "sym" else list(handed)) if handed is not None else None
+        vc.ensure("exactly_these_offers_handed_to_openssl", len(sent) == 1 and hl is not None and len(hl) == len(got) and And(*[a == b for a, b in zip(hl, got)]))
+    else:
+        vc.ensure("no_alpn_extension_without_offers", len(sent) == 0)
+
+
+class ClientFakeConn:
+    """pyOpenSSL SSL.Connection stand-in for TlsConfig.tls_start_client: records what it is configured with"""
+
+    def __bool__(self):
+        return True
+
+    def use_certificate(self, cert):
+        self.trace.append(("use_certificate", cert))
+
+    def use_privatekey(self, key):
+        self.trace.append(("use_privatekey", key))
+
+    def set_app_data(self, data):
+        self.app_data = data
+        self.trace.append(("set_app_data", data))
+
+    def set_accept_state(self):
+        self.trace.append(("set_accept_state",))
+
+
+class ClientFakeSSL:
+    def Connection(self, ctx):
+        self.conn.trace.append(("Connection", ctx))
+        return self.conn
+
+
+class CertStub:
+    def to_cryptography(self):
+        return self.x509
+
+
+STACKS = {
+    # layer stack (classes, top first) at the time tls_start_client fires -> is this the outer connection of a secure web proxy?
+    "empty": ([], False),
+    "regular.outer.as_built_by_next_layer": (["modes:HttpProxy", "tls:ClientTLSLayer", "http:HttpLayer"], True),
+    "regular.outer.tls_layer_only": (["modes:HttpProxy", "tls:ClientTLSLayer"], True),
+    "regular.inner.plain_proxy": (["modes:HttpProxy", "http:HttpLayer", "http:HttpStream", "tls:ServerTLSLayer", "tls:ClientTLSLayer"], False),
+    "regular.inner.plain_proxy.no_server_tls": (["modes:HttpProxy", "http:HttpLayer", "http:HttpStream", "tls:ClientTLSLayer"], False),
+    "regular.inner.secure_proxy": (["modes:HttpProxy", "tls:ClientTLSLayer", "http:HttpLayer", "http:HttpStream", "tls:ServerTLSLayer", "tls:ClientTLSLayer"], False),
+    "regular.inner.secure_proxy.no_server_tls": (["modes:HttpProxy", "tls:ClientTLSLayer", "http:HttpLayer", "http:HttpStream", "tls:ClientTLSLayer"], False),
+    "reverse": (["modes:ReverseProxy", "tls:ServerTLSLayer", "tls:ClientTLSLayer"], False),
+    "reverse.two_layers": (["modes:ReverseProxy", "tls:ClientTLSLayer"], False),
+    "transparent": (["modes:TransparentProxy", "tls:ServerTLSLayer", "tls:ClientTLSLayer", "http:HttpLayer"], False),
+    "socks5": (["modes:Socks5Proxy", "tls:ServerTLSLayer", "tls:ClientTLSLayer"], False),
+}
+
+
+def _layer_ref(short):
+    mod, cls = short.split(":")
+    return {"modes": "mitmproxy.proxy.layers.modes", "tls": "mitmproxy.proxy.layers.tls", "http": "mitmproxy.proxy.layers.http"}[mod] + ":" + cls
+
+
+@scenario("tls_start_client.forces_http11_exactly_on_the_outer_connection_of_a_secure_web_proxy", functions=["mitmproxy.addons.tlsconfig:TlsConfig.tls_start_client"])
+def s_start_client(vc):
+    """Clause 4 on the real TlsConfig.tls_start_client, over the layer stacks that the real next_layer / HTTP layers build
+    (the shapes are asserted against the real NextLayer._setup_explicit_http_proxy in the bounded part): the AppData the ALPN
+    callback will see pins client_alpn to http/1.1 exactly when the handshake is the outer one of a regular-mode (secure web)
+    proxy; otherwise it is client.alpn (None unless an addon chose a protocol); server_alpn and http2 are passed through."""
+    from props.C15 import set_ctx_options, A, NT
+    from props.tlsstub import patch_global
+    name = vc.case("layer_stack", sorted(STACKS))
+    shape, outer = STACKS[name]
+    http2 = vc.sym_bool("http2")
+    calpn = vc.opt("client.alpn", vc.sym_bytes("client.alpn_v"))
+    salpn = vc.opt("server.alpn", vc.sym_bytes("server.alpn_v"))
+    set_ctx_options(vc, mk_options(vc, http2=http2, ciphers_client=None, tls_version_client_min="TLS1_2", tls_version_client_max="UNBOUNDED",
+                                   add_upstream_certs_to_client_chain=False, tls_ecdh_curve_client=None, request_client_cert=False))
+    trace = vc.list([])
+    conn = vc.new("props.C18:ClientFakeConn", trace=trace, app_data=None)
+    patch_global(vc, A, "SSL", vc.new("props.C18:ClientFakeSSL", conn=conn))
+    vc.summary(NT + ":create_client_proxy_context", lambda v, **kw: v.ghost("ssl-context", 1))
+    entry = vc.new("mitmproxy.certs:CertStoreEntry", cert=vc.new("props.C18:CertStub", x509="x509"), privatekey="key", chain_file=None, chain_certs=[])
+    vc.summary(A + ":TlsConfig.get_cert", lambda v, self_, c: entry)
+    # AppData is a TypedDict: calling it builds a plain dict of its keyword arguments
+    built = []
+    vc.summary(A + ":AppData", lambda v, **kw: built.append(kw) or v.dict([(k, kw[k]) for k in ("client_alpn", "server_alpn", "http2")]))
+    client = mk_client(vc, alpn=calpn, cipher_list=vc.list(["ECDHE-RSA-AES128-GCM-SHA256"]))
+    server = mk_server(vc, alpn=salpn)
+    ctx = mk_context(vc, client, server)
+    ctx.layers = vc.list([vc.new(_layer_ref(x)) for x in shape])
+    data = vc.new("mitmproxy.tls:TlsData", conn=client, context=ctx, ssl_conn=None, is_dtls=False)
+    addon = vc.new(A + ":TlsConfig", certstore=vc.new("props.C18:CertStub", dhparams=None))
+    out = vc.call(A + ":TlsConfig.tls_start_client", addon, data)
+    vc.ensure("no_exception", out.ok)
+    if not out.ok:
+        return
+    vc.ensure("connection_handed_out", data.ssl_conn is conn)
+    vc.ensure("app_data_set", len(built) == 1 and not isnone(conn.app_data))
+    if len(built) != 1:
+        return
+    ad = built[0]
+    if outer:
+        vc.ensure("outer_connection_of_secure_web_proxy.http11_forced", ad["client_alpn"] == b"http/1.1")
+    else:
+        vc.ensure("every_other_handshake.client_alpn_is_the_clients_own", vc.eq(ad["client_alpn"], calpn))
+    vc.ensure("upstream_alpn_and_http2_passed_through", And(vc.eq(ad["server_alpn"], salpn), vc.eq(ad["http2"], http2)))
+
+
 def bounded(tier, seed):
     """All offer lists up to length 3 over 7 protocol classes x forced/upstream ALPN states x http2, on the real callback."""
     import itertools
@@ -199,14 +341,33 @@ def bounded(tier, seed):
 
 
 def _bounded_app_data(b):
-    """Clause 4 (secure web proxy outer connection => only HTTP/1.1) on the real TlsConfig.tls_start_client: the AppData handed
-    to the callback has client_alpn = b'http/1.1' iff the layer stack is [HttpProxy, <tls layer>], else client.alpn."""
+    """Clause 4 (secure web proxy outer connection => only HTTP/1.1) on the real TlsConfig.tls_start_client with *real* layer
+    stacks: every shape of STACKS is built from the real layer classes in a real Context (the shape the real
+    NextLayer._setup_explicit_http_proxy builds for a TLS client of a regular proxy is asserted to be the one the T1 scenario
+    calls 'regular.outer.as_built_by_next_layer'); the AppData handed to the callback has client_alpn = b'http/1.1' iff the
+    handshake is the outer one, else client.alpn. (The repository's own test mocks the stack as [HttpProxy, 123].)"""
     import asyncio
-    from mitmproxy.addons import tlsconfig
+    from mitmproxy.addons import tlsconfig, next_layer
     from mitmproxy.test import taddons
     from mitmproxy.proxy import context as pctx
-    from mitmproxy.proxy.layers import modes
+    from mitmproxy.proxy.layers import modes, http, tls as ptls
+    from mitmproxy.proxy.layers.http import HTTPMode
+    from mitmproxy.proxy.mode_specs import ProxyMode
     from mitmproxy import connection, tls
+
+    def build(ctx, shape):
+        """instantiate the stack top-down; a fork at HttpStream as the HTTP layer does"""
+        cur, last = ctx, None
+        for short in shape:
+            mod, cls = short.split(":")
+            if cls == "HttpLayer":
+                last = http.HttpLayer(cur, HTTPMode.regular if shape[0] == "modes:HttpProxy" else HTTPMode.transparent)
+            elif cls == "HttpStream":
+                cur = cur.fork()
+                last = http.HttpStream(cur, 1)
+            else:
+                last = getattr({"modes": modes, "tls": ptls}[mod], cls)(cur)
+        return cur
 
     async def run():
         import tempfile
@@ -214,21 +375,36 @@ def _bounded_app_data(b):
         ta = tlsconfig.TlsConfig()
         with taddons.context(ta) as tctx, tempfile.TemporaryDirectory() as confdir:
             tctx.configure(ta, confdir=confdir)
-            for outer in (True, False):
+            # the stack the real next_layer builds for a TLS ClientHello on a regular proxy
+            c = connection.Client(peername=("127.0.0.1", 1), sockname=("127.0.0.1", 8080), timestamp_start=1.0)
+            c.proxy_mode = ProxyMode.parse("regular")
+            ctx = pctx.Context(c, tctx.options)
+            modes.HttpProxy(ctx)
+            hello = bytes.fromhex("1603010200010001fc0303") + bytes(600)
+            top = next_layer.NextLayer._setup_explicit_http_proxy(ctx, hello)
+            real = [type(x).__module__.rsplit(".", 1)[-1].lstrip("_").replace("base", "http") + ":" + type(x).__name__ for x in top.context.layers]
+            real = [("http:" + r.split(":")[1]) if r.split(":")[1] in ("HttpLayer", "HttpStream") else r for r in real]
+            b.case(("stack.as_built",))
+            if real != STACKS["regular.outer.as_built_by_next_layer"][0] or not isinstance(top, ptls.ClientTLSLayer):
+                b.fail("alpn.appdata.stack_shape_of_next_layer", {"built": real}, "the T1 scenario's 'as built by next_layer' stack is not what next_layer builds")
+            for name in sorted(STACKS):
+                shape, outer = STACKS[name]
                 for calpn in (None, b"h2", b"http/1.1"):
                     for salpn in (None, b"", b"h2"):
                         for http2 in (True, False):
                             tctx.configure(ta, http2=http2)
                             c = connection.Client(peername=("127.0.0.1", 1), sockname=("127.0.0.1", 8080), timestamp_start=1.0)
-                            c.alpn = calpn
                             ctx = pctx.Context(c, tctx.options)
+                            ctx.server.address = ("example.com", 443)
                             ctx.server.alpn = salpn
-                            ctx.layers = [modes.HttpProxy(ctx), 123] if outer else [modes.ReverseProxy(ctx), 123]
-                            ts = tls.TlsData(ctx.client, context=ctx)
+                            cur = build(ctx, shape)
+                            c.alpn = calpn
+                            c.sni = "example.com"
+                            ts = tls.TlsData(cur.client, context=cur)
                             ta.tls_start_client(ts)
                             ad = ts.ssl_conn.get_app_data()
-                            inp = {"outer": outer, "client.alpn": calpn and calpn.decode(), "server.alpn": salpn if salpn is None else salpn.decode(), "http2": http2}
-                            b.case(("appdata", outer, calpn, salpn, http2))
+                            inp = {"stack": name, "layers": shape, "client.alpn": calpn and calpn.decode(), "server.alpn": salpn if salpn is None else salpn.decode(), "http2": http2}
+                            b.case(("appdata", name, calpn, salpn, http2))
                             want = b"http/1.1" if outer else calpn
                             if ad["client_alpn"] != want:
                                 b.fail("alpn.appdata.forced_http11_on_secure_web_proxy", inp, repr(ad))
